@@ -324,8 +324,47 @@ Alma_Step(n, s, x) ==
     IN  [s EXCEPT !.q = q1, !.out = IF AllEqual(q1) THEN MQ(q1[1]) ELSE MF(FDiv(FDotFrom(ws, q1, 1), FSumFrom(ws, 1)))]
 
 -----------------------------------------------------------------------------
+(* views that own a second slot: the supplied moving average (a tree over Echo, state `ma`) is fed the DERIVED value.
+   These steps return <<own state, derived value or <<"n">> >>; the tree functions below step the average. *)
+
+(* EhlersFisherTransform: window high/low with rescan on eviction, min-max normalisation, clamp, Fisher recursion;
+   only the two most recent outputs are kept *)
+EFT_Init(n) == [q |-> <<>>, high |-> QZero, low |-> QZero, qout |-> <<>>, p |-> FALSE]
+EFT_Window(n, s, x) ==
+    LET s0 == IF s.q = <<>> THEN [s EXCEPT !.high = x, !.low = x] ELSE s
+        ev == Len(s0.q) >= n /\ s0.q # <<>>
+        old == Head(s0.q)
+        q1 == IF ev THEN Tail(s0.q) ELSE s0.q
+        hi1 == IF ev THEN (IF q1 = <<>> THEN x ELSE IF QLe(s0.high, old) THEN QMaxSeq(q1) ELSE s0.high) ELSE s0.high
+        lo1 == IF ev THEN (IF q1 = <<>> THEN x ELSE IF QLe(old, s0.low) THEN QMinSeq(q1) ELSE s0.low) ELSE s0.low
+        hi2 == IF QLt(hi1, x) THEN x ELSE hi1
+        lo2 == IF QLt(hi1, x) THEN lo1 ELSE IF QLt(x, lo1) THEN x ELSE lo1
+    IN  [s0 EXCEPT !.q = Push(q1, x), !.high = hi2, !.low = lo2]
+EFT_PushOut(s, f) == [s EXCEPT !.qout = Keep(Push(@, f), 2)]
+(* the value handed to the moving average in this step, or none when the window is flat *)
+EFT_Derived(s, x) == IF QEq(s.high, s.low) THEN MNone
+                     ELSE MQ(QScale(2, QSub(QDiv(QSub(x, s.low), QSub(s.high, s.low)), QFrac(1, 2))))
+(* after the average has answered `m` (none: nothing to do) *)
+EFT_Finish(s, m) ==
+    IF m = MNone THEN s
+    ELSE LET sm == FMax(FQ(-99, 100), FMin(FQ(99, 100), VF(m))) IN
+         IF s.qout = <<>> THEN EFT_PushOut(s, FZero)
+         ELSE EFT_PushOut(s, FAdd(FDivInt(FLn(FDiv(FAdd(FOne, sm), FSub(FOne, sm))), 2), FDivInt(Last(s.qout), 2)))
+EFT_Out(s) == IF s.qout = <<>> THEN MNone ELSE MF(Last(s.qout))
+
+(* PolarizedFractalEfficiency (window_len >= 3) *)
+PFE_Init(n) == [q |-> <<>>, out |-> MNone, p |-> FALSE]
+PFE_Window(n, s, x) == [s EXCEPT !.q = Win_Push(n, s, x)]
+PFE_Derived(n, s, x) ==
+    IF Len(s.q) < n THEN MNone
+    ELSE LET q == s.q
+             path == FSumFrom(Force([i \in 1..(n - 2) |-> FSqrt(FFromQ(QAdd(QSq(QSub(q[n - i + 1], q[n - i])), QOne)))]), 1)
+             pp == FDiv(FSqrt(FFromQ(QAdd(QSq(QSub(x, q[1])), QI(n * n)))), path)
+         IN  MF(IF QLt(x, q[n - 1]) THEN FNeg(pp) ELSE pp)
+
+-----------------------------------------------------------------------------
 (* the tree of machines *)
-RECURSIVE TM_Init(_), TM_Step(_, _, _), TM_Out(_, _), TM_Cells(_, _), TM_Panicked(_, _)
+RECURSIVE TM_Init(_), TM_Step(_, _, _), TM_Out(_, _), TM_Cells(_, _), TM_Panicked(_, _), TwoSlotStep(_, _, _, _)
 
 Own_Init(node) ==
     CASE node.k = "Sma" -> Sma_Init(node.n)
@@ -351,12 +390,15 @@ Own_Init(node) ==
       [] node.k = "RoofingFilter" -> Roof_Init(node.n, node.m)
       [] node.k \in {"TrendFlex", "ReFlex"} -> Flex_Init(node.n)
       [] node.k = "Alma" -> Alma_Init(node.n, SigmaOf(node), OffsetOf(node))
+      [] node.k = "EhlersFisherTransform" -> EFT_Init(node.n)
+      [] node.k = "PolarizedFractalEfficiency" -> PFE_Init(node.n)
       [] OTHER -> [p |-> FALSE]
 
 (* does this specification have a machine for the node (and everything below it)? *)
 RECURSIVE Modelled(_)
 Modelled(node) ==
-    /\ node.k \notin {"EhlersFisherTransform", "PolarizedFractalEfficiency", "Tap", "Decomp"}
+    /\ node.k \notin {"Tap", "Decomp"}
+    /\ (node.k = "PolarizedFractalEfficiency" => node.n >= 3)
     /\ (~HasField(node, "c") \/ \A i \in 1..Len(node.c) : Modelled(node.c[i]))
 
 Own_Step(node, s, v) ==
@@ -422,10 +464,12 @@ Own_Out(node, s) ==
 
 (* state of a tree: <<own state, state of child 1, state of child 2>> (absent children: <<>>) *)
 Leaf(node) == node.k \in LeafKinds
+TwoSlot == {"EhlersFisherTransform", "PolarizedFractalEfficiency"}
 Kid(node, i) == ChildOf(node, i)
 TM_Init(node) ==
     IF Leaf(node) THEN <<Own_Init(node), <<>>, <<>>>>
     ELSE IF node.k \in BinaryKinds THEN <<[p |-> FALSE], TM_Init(Kid(node, 1)), TM_Init(Kid(node, 2))>>
+    ELSE IF node.k \in TwoSlot THEN <<Own_Init(node), TM_Init(Kid(node, 1)), TM_Init(Kid(node, 2))>>
     ELSE <<Own_Init(node), TM_Init(Kid(node, 1)), <<>>>>
 
 (* out of the input domain (zero divisor): the machine makes no statement *)
@@ -443,7 +487,23 @@ TM_Out(node, st) ==
     IF node.k \in BinaryKinds THEN BinOut(node.k, TM_Out(Kid(node, 1), st[2]), TM_Out(Kid(node, 2), st[3]))
     ELSE IF node.k = "Tanh" THEN LET o == TM_Out(Kid(node, 1), st[2]) IN
                                   IF o = MNone \/ o = MUndef THEN o ELSE IF o[1] = "q" /\ QIsZero(o[2]) THEN MQ(QZero) ELSE MF(FTanh(VF(o)))
+    ELSE IF node.k = "EhlersFisherTransform" THEN EFT_Out(st[1])
+    ELSE IF node.k = "PolarizedFractalEfficiency" THEN st[1].out
     ELSE Own_Out(node, st[1])
+
+(* the second slot: own window first, then the moving average is stepped with the derived value (if any) *)
+TwoSlotStep(node, st, kid, v) ==
+    LET x == VQ(v) IN
+    IF node.k = "EhlersFisherTransform" THEN
+        LET w == EFT_Window(node.n, st[1], x)
+            d == EFT_Derived(w, x)
+        IN  IF d = MNone THEN <<EFT_PushOut(w, FZero), kid, st[3]>>
+            ELSE LET ma == TM_Step(Kid(node, 2), st[3], d[2]) IN <<EFT_Finish(w, TM_Out(Kid(node, 2), ma)), kid, ma>>
+    ELSE
+        LET w == PFE_Window(node.n, st[1], x)
+            d == PFE_Derived(node.n, w, x)
+        IN  IF d = MNone THEN <<w, kid, st[3]>>
+            ELSE LET ma == TM_Step(Kid(node, 2), st[3], VQ(d)) IN <<[w EXCEPT !.out = TM_Out(Kid(node, 2), ma)], kid, ma>>
 
 (* update: children first; a unary node whose child reports None leaves its own state untouched *)
 TM_Step(node, st, raw) ==
@@ -451,7 +511,9 @@ TM_Step(node, st, raw) ==
     ELSE IF node.k \in BinaryKinds THEN <<st[1], TM_Step(Kid(node, 1), st[2], raw), TM_Step(Kid(node, 2), st[3], raw)>>
     ELSE LET kid == TM_Step(Kid(node, 1), st[2], raw)
              o == TM_Out(Kid(node, 1), kid)
-         IN  IF o = MNone \/ o = MUndef THEN <<st[1], kid, <<>>>> ELSE <<Own_Step(node, st[1], o), kid, <<>>>>
+         IN  IF o = MNone \/ o = MUndef THEN <<st[1], kid, st[3]>>
+             ELSE IF node.k \in TwoSlot THEN TwoSlotStep(node, st, kid, o)
+             ELSE <<Own_Step(node, st[1], o), kid, <<>>>>
 
 OwnCells(node, s) ==
     CASE node.k \in {"Sma", "Cumulative", "Min", "Max", "HLNormalizer", "Roc", "BinaryEntropy", "Rsi", "MyRSI", "CenterOfGravity",
@@ -461,6 +523,8 @@ OwnCells(node, s) ==
       [] node.k = "Alma" -> 2 * Len(s.q) + Len(s.es)
       [] node.k \in {"LaguerreFilter", "LaguerreRSI"} -> Len(s.l[1]) + Len(s.l[2]) + Len(s.l[3]) + Len(s.l[4])
       [] node.k = "CyberCycle" -> Len(s.vals) + Len(s.sm) + Len(s.out)
+      [] node.k = "EhlersFisherTransform" -> Len(s.q) + Len(s.qout)
+      [] node.k = "PolarizedFractalEfficiency" -> Len(s.q)
       [] OTHER -> 0
 TM_Cells(node, st) ==
     OwnCells(node, st[1]) + (IF st[2] = <<>> THEN 0 ELSE TM_Cells(Kid(node, 1), st[2])) + (IF st[3] = <<>> THEN 0 ELSE TM_Cells(Kid(node, 2), st[3]))
